@@ -73,12 +73,20 @@ def simple_spec(kind, zA, zB, O, ret):
         return z3.If(zA < zB, z3.And(O == zA - zB + R384, ret == 1), z3.And(O == zA - zB, ret == 0))
     if kind == "bigint_384_multiply2":
         return z3.If(2 * zA >= R384, z3.And(O == 2 * zA - R384, ret == 1), z3.And(O == 2 * zA, ret == 0))
+    # The modular kernels are specified for ALL 384-bit operands (C03 quantifies over all operand pairs, not only canonical ones): the function the
+    # portable template computes - truncated sum / difference / double, then one conditional correction by q decided by (carry or >= q) resp. borrow,
+    # everything modulo 2^384.  For operands below q this is (a op b) mod q.
+    def m384(t):
+        return t % R384
     if kind == "fpbase_384_add":
-        return z3.If(zA + zB >= Q, O == zA + zB - Q, O == zA + zB)
+        T = m384(zA + zB)
+        return z3.If(z3.Or(zA + zB >= R384, T >= Q), O == m384(T - Q), O == T)
     if kind == "fpbase_384_subtract":
-        return z3.If(zA < zB, O == zA - zB + Q, O == zA - zB)
+        T = m384(zA - zB)
+        return z3.If(zA < zB, O == m384(T + Q), O == T)
     if kind == "fpbase_384_multiply2":
-        return z3.If(2 * zA >= Q, O == 2 * zA - Q, O == 2 * zA)
+        T = m384(2 * zA)
+        return z3.If(z3.Or(2 * zA >= R384, T >= Q), O == m384(T - Q), O == T)
     raise ValueError(kind)
 
 
@@ -93,8 +101,7 @@ def x86_simple(aprog, kind, alias=0, timeout_ms=60000):
     bv = av if (nin == 1 or alias == 3) else [L.var("b%d" % i) for i in range(6)]
     A, B = lin_sum(L, av), lin_sum(L, bv)
     zA, zB = L.z(A), L.z(B)
-    if has_p:
-        L.solver.add(zA < Q, zB < Q)
+    # no range assumption on the operands of the modular kernels: all 384-bit values (see simple_spec)
 
     def once():
         oa = Obj("a", 48, "arg", 16)
